@@ -887,7 +887,15 @@ impl<'i> Interp<'i> {
         self.max_call_depth = self.max_call_depth.max(self.frames.len());
         let saved_ret = self.ret.take();
         let saved_named = std::mem::take(&mut self.named);
-        self.pron = Pron::Unspec;
+        // At entry the variable most recently named is still the one the caller named last (usually in the
+        // last argument): entering a function is not the end of a block or call. It is only left open when a
+        // parameter of the same name now hides that variable.
+        if let Pron::Known(n) = &self.pron {
+            let k = n.key();
+            if def.params.iter().any(|p| p.key() == k) {
+                self.pron = Pron::Unspec;
+            }
+        }
         let flow = self.block(&def.body);
         let result = match flow {
             Ok(Flow::Normal) => Ok(V::Mys),
